@@ -335,7 +335,7 @@ GRID = {
 
 def jobs(tier):
     q = tier == "quick"
-    T = 200 if q else 900
+    T = 400 if q else 900
     J = []
     for name in sorted(TABLE):
         J.append({"module": "c20", "fn": "h_retain", "part": {"tool": name, "L": (12 if q else 24)}, "timeout": T})
